@@ -30,7 +30,27 @@ def inject_stray(rng, doc):
     return gen.set_at(doc, p, {s: rng.choice([1, True, {"a": 1}])})
 
 
+def stream_case(rng):
+    """multi-document streams: a $required arriving through a layer that fans out to several documents must be
+    satisfied per document (an override in one document says nothing about the others)"""
+    from props import c02
+    c = c02.gen_case(rng)
+    steps = []
+    for s in c["steps"]:
+        if "merge" in s and rng.random() < 0.5:
+            m = dict(s["merge"])
+            m["data"] = gen.with_required(rng, m["data"], 0.15)
+            if isinstance(m["data"], dict) and rng.random() < 0.5:
+                m["data"] = dict(m["data"], lst=[{"name": rng.choice(["x", "y"]), "port": "$required"}])
+            steps.append({"merge": m})
+        else:
+            steps.append(s)
+    return dict(c, steps=steps)
+
+
 def gen_case(rng):
+    if rng.random() < 0.2:
+        return stream_case(rng)
     base = gen.eval_doc(rng, W, depth=rng.randint(2, 3), nfeat=(0, 2))
     base = gen.with_required(rng, base, 0.12)
     layers = [base]
